@@ -250,6 +250,8 @@ impl MDBInMemoryShard {
         let full_file_name = directory.join(shard_file_name(&shard_hash));
 
         std::fs::rename(&temp_file_name, &full_file_name)?;
+        #[cfg(xet_verif)]
+        utils::verif::stamp_mtime(&full_file_name);
 
         debug!("Wrote out in-memory shard to {full_file_name:?}.");
 
